@@ -238,6 +238,9 @@ def mp3Frame (a : Args) (k : String) : Spec.Mp3.Frame := ⟨mp3Hdr (a.str (k ++ 
 def mp3Cbr (a : Args) : Spec.Mp3.Cbr :=
   { lead := mp3Lead a, f1 := mp3Frame a "f1", f2 := mp3Frame a "f2", f3 := mp3Frame a "f3", f4 := mp3Frame a "f4", trailing := a.bytes "trailing" }
 
+def mp3Short (a : Args) : Spec.Mp3.Short :=
+  { lead := mp3Lead a, frames := (["f1", "f2", "f3"].filter fun k => a.has (k ++ "h")).map (mp3Frame a), trailing := a.bytes "trailing" }
+
 def mp3XingTag (a : Args) : Spec.Mp3.XingTag :=
   { isInfo := a.nat "info" == 1, frames := ibOptNat a "frames", bytes := ibOptNat a "nbytes",
     toc := if a.has "toc" then some (a.bytes "toc") else none, quality := ibOptNat a "quality" }
@@ -332,6 +335,13 @@ def infoBOp (a : Args) : String :=
   | "expect", "MP4" => s!"ok {showMp4 (Spec.Mp4Info.expected (mp4Fields a))} ok=1 partial=1"
   | "build", "MP3cbr" => s!"ok v={hexField (mp3Cbr a).build}"
   | "expect", "MP3cbr" => s!"ok {showMp3 (mp3Cbr a).expected} ok=1 partial=1"
+  | "build", "MP3short" => s!"ok v={hexField (mp3Short a).build}"
+  | "expect", "MP3short" =>
+    let s := mp3Short a
+    match s.expected with
+    | some i => s!"ok {showMp3 i} ok={ibBit (decide s.OK)} partial=1"
+    | none => s!"err mutagen ok={ibBit (decide s.OK)}"
+  | "parse", "MP3short" => res showMp3 (Mp3.parse (a.bytes "data"))
   | "build", "MP3xing" => s!"ok v={hexField (mp3Xing a).build}"
   | "expect", "MP3xing" => s!"ok {showMp3 (mp3Xing a).expected} ok=1 partial=1"
   | "build", "MP3vbri" => s!"ok v={hexField (mp3Vbri a).build}"
@@ -342,7 +352,7 @@ def infoBOp (a : Args) : String :=
   | "parse", "MP3cbr" => res showMp3 (Mp3.parse (a.bytes "data"))
   | "parse", "MP3xing" => res showMp3 (Mp3.parse (a.bytes "data"))
   | "parse", "MP3vbri" => res showMp3 (Mp3.parse (a.bytes "data"))
-  | "parse", "MP3" => res showMp3 (Mp3.parse (a.bytes "data"))
+  | "parse", "MP3" => res showMp3 (Mp3.parseFrom (a.bytes "data") (a.nat "offset"))
   | "syncs", _ => s!"ok v={showNatList (Mp3.syncScan (a.bytes "data") (a.nat "pos") (a.nat "max" 1048576))}"
   | "syncchunks", _ => s!"ok v={showNatList (Mp3.syncChunks (a.bytes "data") (a.nat "max" 1048576) ((a.bytes "data").length + 2) (a.nat "pos") 0 2 none)}"
   | "skipid3", _ => s!"ok v={Mp3.skipId3 (a.bytes "data") ((a.bytes "data").length + 1) 0}"
